@@ -16,7 +16,7 @@ from sketchnu.countmin import CountMin
 RULE = (
     "Enumerated: per family several seed-derived base configurations and every configuration differing from the base in exactly one "
     "listed parameter (count-min: width, depth, counter type - all 6 ordered type pairs at equal width/depth -, max_count, num_reserved; "
-    "HyperLogLog: p, seed incl. seeds that differ only above bit 32 or only in bit 63; heavy hitters: width, depth, max_key_len), every "
+    "HyperLogLog: p, seed incl. seeds that differ only above bit 32 or only in bit 63; heavy hitters: width, depth, max_key_len; plus families of large magnitudes: max_count 2^40..2^63 differing by 1, widths/depths differing by 256, 65536 or 2^20), every "
     "ordered pair, both operands non-empty; plus Hypothesis-drawn pairs of configurations of one family (differences in several parameters, "
     "or none). Oracle: if the pair differs in a listed parameter merge raises TypeError and the full public state of both operands is "
     "bit-for-bit unchanged; otherwise (incl. heavy hitters differing only in phi, count-min built through CountMin() vs the class, loaded vs "
@@ -103,12 +103,24 @@ def grid(seed):
                dict(l16, max_count=2**40), dict(l16, num_reserved=l16["num_reserved"] + 1), l8, dict(l8, width=w + 1), dict(l8, depth=d + 1),
                dict(l8, max_count=l8["max_count"] + 1), dict(l8, num_reserved=l8["num_reserved"] + 1)]
         out.append(fam)
+        # large magnitudes: parameters that only differ far up (close huge max_counts round to the same float;
+        # widths/depths beyond 8 or 16 bits collide in packed or truncated comparisons)
+        big = r.choice([2**40, 2**48, 2**60, 2**63])
+        b16 = {"kind": "log16", "width": w, "depth": d, "max_count": big, "num_reserved": 1023}
+        b8 = {"kind": "log8", "width": w, "depth": d, "max_count": max(big, 2**60), "num_reserved": 15}
+        out.append([b16, dict(b16, max_count=big + 1), dict(b16, max_count=big + 1000), dict(b16, max_count=big - 1), b8, dict(b8, max_count=b8["max_count"] + 1),
+                    dict(b8, max_count=b8["max_count"] - 1), dict(b8, max_count=b8["max_count"] + 2**20)])
+        lw = {"kind": "linear", "width": 3, "depth": 2}
+        out.append([lw, dict(lw, width=3 + 256), dict(lw, width=3 + 65536), dict(lw, depth=2 + 256), dict(lw, depth=2 + 65536), dict(lw, width=3 + 2**20)])
         p, s = r.choice([7, 10, 16]), r.choice([0, 5, 2**32 - 1, r.getrandbits(64)])
         h = {"kind": "hll", "p": p, "seed": s}
         out.append([h, dict(h, p=p + 1 if p < 16 else p - 1), dict(h, seed=s ^ 1), dict(h, seed=s ^ (1 << 32)), dict(h, seed=s ^ (1 << 63)), dict(h, seed=s ^ (1 << 40))])
         hw, hd, hm = r.choice([1, 3, 16]), r.choice([1, 4]), r.choice([2, 8, 16])
         hh = {"kind": "hh", "width": hw, "depth": hd, "max_key_len": hm, "phi": None}
         out.append([hh, dict(hh, width=hw + 1), dict(hh, depth=hd + 1), dict(hh, max_key_len=hm + 1), dict(hh, max_key_len=hm - 1), dict(hh, phi=0.25)])
+        hb = {"kind": "hh", "width": 3, "depth": 4, "max_key_len": 8, "phi": None}
+        out.append([hb, dict(hb, depth=4 + 256), dict(hb, depth=4 + 512), dict(hb, width=3 + 256), dict(hb, width=3 + 65536), dict(hb, width=2, depth=260), dict(hb, max_key_len=255),
+                    dict(hb, width=3 + 65536, depth=4 + 256)])
     return out
 
 
@@ -133,11 +145,11 @@ def _shard(arg):
     cms = st.one_of(
         st.builds(lambda w, d: {"kind": "linear", "width": w, "depth": d}, st.sampled_from([1, 2, 3]), st.sampled_from([1, 2])),
         st.builds(lambda k, w, d, mc, nr: {"kind": k, "width": w, "depth": d, "max_count": mc, "num_reserved": nr}, st.sampled_from(["log8", "log16"]),
-                  st.sampled_from([1, 2, 3]), st.sampled_from([1, 2]), st.sampled_from([CEIL, 10**6, 2**40]), st.sampled_from([0, 3, 15])),
+                  st.sampled_from([1, 2, 3]), st.sampled_from([1, 2]), st.sampled_from([CEIL, 10**6, 2**40, 2**40 + 1, 2**60, 2**60 + 1, 2**63, 2**63 + 1]), st.sampled_from([0, 3, 15])),
     )
     hll = st.builds(lambda p, s: {"kind": "hll", "p": p, "seed": s}, st.sampled_from([7, 8, 16]), st.sampled_from([0, 1, 2**32, 2**32 + 1, 2**63, 2**64 - 1]))
-    hh = st.builds(lambda w, d, m, phi: {"kind": "hh", "width": w, "depth": d, "max_key_len": m, "phi": phi}, st.sampled_from([1, 2]), st.sampled_from([1, 2]),
-                   st.sampled_from([1, 4, 16]), st.sampled_from([None, 0.5, 1.0]))
+    hh = st.builds(lambda w, d, m, phi: {"kind": "hh", "width": w, "depth": d, "max_key_len": m, "phi": phi}, st.sampled_from([1, 2, 3, 259]), st.sampled_from([1, 2, 4, 258, 260]),
+                   st.sampled_from([1, 4, 16, 255]), st.sampled_from([None, 0.5, 1.0]))
     pairs = st.one_of(st.tuples(cms, cms), st.tuples(hll, hll), st.tuples(hh, hh))
 
     @given(pair=pairs, variant=st.sampled_from([0, 0, 1, 2]))
